@@ -24,7 +24,7 @@ structure Node where
 
 /-- the three ways the code applies `hashFunc`:
 `point r i = hashFunc([]byte(r + strconv.Itoa(i)))`, `key r = hashFunc([]byte(r))`,
-`inner r = hashFunc([]byte(innerRepr(v)))` for a value with repr `r`. -/
+`inner t = hashFunc([]byte(innerRepr(v)))` for a value whose `%v` text is `t` (see `verbV`). -/
 structure Hasher where
   point : String → Nat → Nat
   key   : String → Nat
@@ -37,8 +37,55 @@ def prime : Nat := 16777619
 /-- `nodeRepr + strconv.Itoa(i)` -/
 def label (r : String) (i : Nat) : String := r ++ toString i
 
-/-- `fmt.Sprintf("%d:%v", prime, v)` for values whose `%v` is their repr (strings, ints, Stringers, bools) -/
-def innerRepr (r : String) : String := toString prime ++ ":" ++ r
+/-! ### `%v` of a Go value (what `innerRepr` formats), by kind
+
+`lang.Repr` and `fmt`'s `%v` agree for strings, integers, bools, errors and Stringers; they differ for
+  * floats: `Repr` is `strconv.FormatFloat(x, 'f', -1, bits)`, `%v` is `%g` with the shortest digits
+    (`%e` form when the decimal exponent is `< -4` or `≥ 6`: strconv/ftoa.go `formatDigits`, `eprec = 6`),
+  * `[]byte`: `Repr` is `string(b)`, `%v` is `[104 105]`,
+  * `nil`: `Repr` is `""`, `%v` is `<nil>`,
+  * an error with a pointer receiver (`errors.New(msg)`): `Repr` dereferences the pointer and prints the
+    struct, `{msg}`; `%v` calls `Error()`: `msg`.
+Kinds: s string, i int, j int64, u uint64, o bool, e error, t Stringer (value), p Stringer (pointer),
+f float64, g float32, b []byte, z nil, x errors.New. -/
+
+def stripLeadingZeros (l : List Char) : List Char := l.dropWhile (· == '0')
+
+def pad2 (n : Nat) : String := if n < 10 then "0" ++ toString n else toString n
+
+/-- `%v` of a float from its `'f', -1` rendering (same shortest digits, other layout) -/
+def verbFloat (r : String) : String :=
+  if r = "NaN" ∨ r = "+Inf" ∨ r = "-Inf" then r else
+  let cs := r.toList
+  let neg := cs.head? = some '-'
+  let body := if neg then cs.drop 1 else cs
+  let ip := body.takeWhile (· != '.')
+  let fp := (body.dropWhile (· != '.')).drop 1
+  let all := ip ++ fp
+  let lead := all.length - (stripLeadingZeros all).length
+  let digs := (stripLeadingZeros (stripLeadingZeros all).reverse).reverse   -- significant digits
+  if digs.isEmpty then r else
+  let exp : Int := (ip.length : Int) - (lead : Int) - 1                       -- digs.dp - 1
+  if exp < -4 ∨ exp ≥ 6 then
+    (if neg then "-" else "") ++ String.ofList (digs.take 1)
+      ++ (if digs.length > 1 then "." ++ String.ofList (digs.drop 1) else "")
+      ++ "e" ++ (if exp < 0 then "-" else "+") ++ pad2 exp.natAbs
+  else r
+
+/-- `%v` of a `[]byte`: decimal bytes in brackets -/
+def verbBytes (r : String) : String :=
+  "[" ++ " ".intercalate (r.toUTF8.toList.map fun b => toString b.toNat) ++ "]"
+
+/-- `%v` of the value -/
+def verbV (n : Node) : String :=
+  if n.kind = "f" ∨ n.kind = "g" then verbFloat n.repr
+  else if n.kind = "b" then verbBytes n.repr
+  else if n.kind = "z" then "<nil>"
+  else if n.kind = "x" then String.ofList ((n.repr.toList.drop 1).dropLast)
+  else n.repr
+
+/-- `fmt.Sprintf("%d:%v", prime, v)` applied to the `%v` text of the value -/
+def innerRepr (v : String) : String := toString prime ++ ":" ++ v
 
 def Hasher.ofFunc (f : String → Nat) : Hasher :=
   { point := fun r i => f (label r i), key := f, inner := fun r => f (innerRepr r) }
@@ -111,6 +158,14 @@ def clampReplicas (R : Nat) (replicas : Int) : Nat :=
 
 def points (H : Hasher) (r : String) (c : Nat) : List Nat := (List.range c).map (H.point r)
 
+/-- the second critical section of `AddWithReplicas` (after `Remove` returned and released the lock):
+addNode, the insertion loop, the sort. -/
+def insertPhase (H : Hasher) (s : CH) (n : Node) (replicas : Int) : CH :=
+  let pts := points H n.repr (clampReplicas s.replicas replicas)
+  { s with nodes := if s.nodes.contains n.repr then s.nodes else n.repr :: s.nodes,
+           keys := sortKeys (s.keys ++ pts),
+           ring := pts.foldl (fun ring x => setBucket ring x (insertNode n (bucket ring x))) s.ring }
+
 def addWithReplicas (H : Hasher) (s : CH) (n : Node) (replicas : Int) : CH :=
   let s := remove H s n
   let pts := points H n.repr (clampReplicas s.replicas replicas)
@@ -120,8 +175,11 @@ def addWithReplicas (H : Hasher) (s : CH) (n : Node) (replicas : Int) : CH :=
 
 def add (H : Hasher) (s : CH) (n : Node) : CH := addWithReplicas H s n s.replicas
 
-/-- `replicas := h.replicas * weight / TopWeight` (Go `int` division truncates) -/
-def weightReplicas (R : Nat) (weight : Int) : Int := Int.tdiv ((R : Int) * weight) topWeight
+/-- a Go `int` (64 bit): the product wraps around in two's complement -/
+def wrapInt (x : Int) : Int := (x + 9223372036854775808) % 18446744073709551616 - 9223372036854775808
+
+/-- `replicas := h.replicas * weight / TopWeight` (Go `int`: the product wraps, the division truncates) -/
+def weightReplicas (R : Nat) (weight : Int) : Int := Int.tdiv (wrapInt ((R : Int) * weight)) topWeight
 
 def addWithWeight (H : Hasher) (s : CH) (n : Node) (weight : Int) : CH :=
   addWithReplicas H s n (weightReplicas s.replicas weight)
@@ -132,16 +190,19 @@ inductive Outcome where
   | panic                -- integer divide by zero in `% len(h.keys)`
   deriving DecidableEq, Repr
 
-def get (H : Hasher) (s : CH) (k : Node) : Outcome :=
-  if s.ring.isEmpty then .none
-  else if s.keys.length = 0 then .panic
+/-- `Get` after the `len(h.ring) == 0` test -/
+def getRest (H : Hasher) (s : CH) (k : Node) : Outcome :=
+  if s.keys.length = 0 then .panic
   else
     let idx := searchGE s.keys (H.key k.repr) % s.keys.length
     let b := bucket s.ring (s.keys.getD idx 0)
     match b with
     | [] => .none
     | [n] => .node n
-    | _ => .node (b.getD (H.inner k.repr % b.length) default)
+    | _ => .node (b.getD (H.inner (verbV k) % b.length) default)
+
+def get (H : Hasher) (s : CH) (k : Node) : Outcome :=
+  if s.ring.isEmpty then .none else getRest H s k
 
 inductive Op where
   | add (n : Node)
